@@ -94,6 +94,7 @@ var c04Faults = []fault{
 	{"outer_has_outer_extensions", "illegal_parameter", 5},
 	{"outer_ech_type_inner", "illegal_parameter", 6},
 	{"ech_type_unknown", "illegal_parameter", 6},
+	{"outer_ech_ext_empty_body", "decode_error", 6},
 	{"outer_sni_mismatch", "illegal_parameter", 5},
 	{"outer_sni_absent", "illegal_parameter", 5},
 	{"inner_no_ech_ext", "illegal_parameter", 1},
@@ -182,7 +183,7 @@ func c04Build(t *rapid.T) (record []byte, key *hello.Key, classes []string, desc
 					}
 				}
 			}
-			for _, pair := range [][2]string{{"outer_sni_mismatch", "outer_sni_absent"}, {"outer_ech_type_inner", "ech_type_unknown"}, {"inner_no_ech_ext", "inner_ech_ext_outer_type"}, {"inner_tls12_only", "inner_no_versions"}, {"record_not_handshake", "msg_not_client_hello"}} {
+			for _, pair := range [][2]string{{"outer_sni_mismatch", "outer_sni_absent"}, {"outer_ech_type_inner", "ech_type_unknown"}, {"outer_ech_type_inner", "outer_ech_ext_empty_body"}, {"ech_type_unknown", "outer_ech_ext_empty_body"}, {"inner_no_ech_ext", "inner_ech_ext_outer_type"}, {"inner_tls12_only", "inner_no_versions"}, {"record_not_handshake", "msg_not_client_hello"}} {
 				if hasFault(fs, pair[0]) && hasFault(fs, pair[1]) {
 					drop(pair[1])
 				}
@@ -416,11 +417,17 @@ func c04Build(t *rapid.T) (record []byte, key *hello.Key, classes []string, desc
 			if rapid.Bool().Draw(t, "ohm_nonempty") {
 				ts = []uint16{outer.Exts[uniform(t, "ohm_ref", len(outer.Exts))].Type}
 			}
+			marker := hello.MarkerExt(ts)
+			what := "outer_has_outer_extensions"
+			if ts == nil && rapid.Bool().Draw(t, "ohm_zero_length_body") {
+				marker.Data = nil // the extension is there, with no extension_data at all
+				what = "outer_has_outer_extensions(zero-length body)"
+			}
 			exts := append([]hello.Ext{}, outer.Exts[:pos]...)
-			exts = append(exts, hello.MarkerExt(ts))
+			exts = append(exts, marker)
 			exts = append(exts, outer.Exts[pos:]...)
 			outer.Exts = exts
-			desc = append(desc, fmt.Sprintf("outer_has_outer_extensions@%d", pos))
+			desc = append(desc, fmt.Sprintf("%s@%d", what, pos))
 		}
 		suite := key.Suites[rapid.IntRange(0, len(key.Suites)-1).Draw(t, "suite")]
 		sl, err := hello.NewSealer(key.Config, key.Priv.PublicKey().Bytes(), suite, key.ID)
@@ -465,6 +472,12 @@ func c04Build(t *rapid.T) (record []byte, key *hello.Key, classes []string, desc
 				desc = append(desc, fmt.Sprintf("ech_type_unknown(%d)", ty))
 			}
 			msg = outer.Message()
+		}
+		if hasFault(fs, "outer_ech_ext_empty_body") {
+			i := outer.Find(hello.ExtECH)
+			outer.Exts[i].Data = nil
+			msg = outer.Message()
+			desc = append(desc, "outer_ech_ext_empty_body")
 		}
 		if hasFault(fs, "outer_truncated") {
 			body := msg[4:]
